@@ -18,7 +18,7 @@ FalseOnes(g) == {n \in DOMAIN g : ~g[n]}
 SeqToSet(q)  == {q[i] : i \in 1..Len(q)}
 Max(S)       == CHOOSE x \in S : \A y \in S : y <= x
 
-BadAddrs     == {"bad:empty", "bad:notbech32"}
+BadAddrs     == {"bad:empty", "bad:notbech32", "bad:space"}      \* "bad:space": a string of blanks - not empty, not an address
 ValidAddr(a) == a \notin BadAddrs
 NonEmpty(a)  == a # "bad:empty"
 ValidDenom(d) == d # "bad:denom"
